@@ -413,9 +413,10 @@ impl HasChildren for XmlAttribute {
             return Err(error::Error::InvalidHierarchy);
         }
 
+        // The kind of the new child is checked before it is taken out of its old parent.
+        let v = XmlAttributeValue::try_from(value.clone())?;
         value.remove_from_parent();
         value.set_parent_id(Some(self.id()));
-        let v = XmlAttributeValue::try_from(value.clone())?;
         if let Some(id) = id {
             let index = self.child_index(id).unwrap();
             self.values.borrow_mut().insert(index, v.clone());
